@@ -348,6 +348,19 @@ def _local_values(fi, name):
                 and isinstance(st.targets[0], ast.Name) \
                 and st.targets[0].id == name:
             out.append(st.value)
+        # what is put into the local afterwards is part of its value:
+        # name[k] = v, name.append(v), name.update(v)
+        if isinstance(st, ast.Assign) and len(st.targets) == 1 \
+                and isinstance(st.targets[0], ast.Subscript) \
+                and isinstance(st.targets[0].value, ast.Name) \
+                and st.targets[0].value.id == name:
+            out.append(st.value)
+        if isinstance(st, ast.Call) and isinstance(
+                st.func, ast.Attribute) and st.func.attr in (
+                    'append', 'extend', 'update', 'add', 'insert') \
+                and isinstance(st.func.value, ast.Name) \
+                and st.func.value.id == name:
+            out.extend(st.args)
     return out
 
 
@@ -496,7 +509,7 @@ def check_memo_keys(ctx, fi, rule='R-MEMO/key-complete'):
         used = _atoms(st.value, vary)
         for x in ast.walk(st.value):
             if isinstance(x, ast.Name) and x.id not in vary \
-                    and x.id not in creations:
+                    and x.id != getattr(b, 'id', None):
                 for v in _local_values(fi, x.id):
                     used |= _atoms(v, vary)
         missing = {a for a in used if not _covered(a, key_atoms)}
